@@ -22,7 +22,10 @@ def run(ck, progs):
     ck.rule("C07.4", "the termination control message is broadcast only by the last voter (equality test on the vote RMW's result) or by "
                      "RootsimStop; the node counter is written only by its initialiser and the control-message handler; the worker loop "
                      "re-reads it atomically on every iteration")
+    ck.rule("C07.5", "the thread's maximum recorded termination time never decreases while LPs it covers may still be terminated: it is written "
+                     "only by the forward handler (as a running maximum, for every order type) and by the vote (set to SIMTIME_MAX)")
     for cfg, P in progs.items():
+        _max_t(ck, P, cfg)
         _conservation(ck, P, cfg)
         _undo_after_rollback(ck, P, cfg)
         _votes(ck, P, cfg)
@@ -185,6 +188,62 @@ def _conservation(ck, P, cfg):
     for f, node, kind in Q.global_accesses(P, cn):
         if kind != "read" and f.name not in ("termination_lp_init", "termination_on_msg_process", "termination_on_lp_rollback"):
             ck.violated("C07.1", "counter-writer:%s" % f.name, node.where, "%s modifies %s; only the three writers that also move the marker may" % (f.name, cn), cfg)
+
+
+def _max_t(ck, P, cfg):
+    fm = P.fn("termination_on_msg_process")
+    mname = None
+    for n in fm.walk():
+        if n.k == "BinaryOperator" and n.op == "=":
+            t = X.strip(n.children[0])
+            if t.k == "DeclRefExpr" and t.d.get("sc") in ("file_static", "global") and t.d.get("tf"):
+                mname = t
+    if mname is None:
+        ck.inconclusive("C07.5", "max-time", fm.where, "no per-thread maximum termination time is maintained (a different voting scheme)", cfg)
+        return
+    if not mname.tls:
+        ck.violated("C07.5", "max-time:thread-local", mname.where, "`%s` is shared between threads but updated without synchronisation" % mname.name, cfg)
+    SMAX = 1.7976931348623157e308
+    n = 0
+    for f, node, kind in Q.global_accesses(P, mname.name):
+        if kind == "read":
+            continue
+        n += 1
+        inst = "max-time-writer@%s" % f.name
+        asg = node.parent
+        while asg is not None and asg.k not in ("BinaryOperator", "CompoundAssignOperator"):
+            asg = asg.parent
+        if f.name == "termination_on_msg_process":
+            # running maximum for every order type
+            pts = interp.order_points([0.0, SMAX])
+            tkey = "%s->termination_t" % f.params[0]["name"]
+            bad = None
+            for a0 in pts:
+                for m in [p for p in pts if p >= 0]:
+                    for b in (0, 1):
+                        for o in interp.Interp(f, {COMMITTED: (lambda args, e, b=b: b)}).run({tkey: -1.0, "lps_to_end": 5, f.params[1]["name"]: m, mname.name: a0}):
+                            got = o.env.get(mname.name)
+                            if got is None or not o.decided:
+                                bad = bad or ("inconclusive", "cannot evaluate")
+                            elif got < a0 or (b and got < m):
+                                bad = ("violated", "maximum %r, event time %r, predicate=%d -> %r" % (a0, m, b, got))
+            if bad is None:
+                ck.holds("C07.5", inst, asg.where, "%s = max(event time, %s) when the predicate holds, unchanged otherwise" % (mname.name, mname.name), cfg)
+            elif bad[0] == "violated":
+                ck.violated("C07.5", inst, asg.where, "the maximum termination time can decrease or miss the recorded time: " + bad[1], cfg)
+            else:
+                ck.inconclusive("C07.5", inst, asg.where, bad[1], cfg)
+        elif f.name == "termination_on_gvt":
+            v = X.const_float(asg.children[1])
+            votes = [a for a in Q.atomics(f) if Q.atomic_kind(a) == "rmw" and "thr_to_end" in X.show(a.children[0])]
+            if asg.op == "=" and v == SMAX and votes and (f.cfg.dominates(asg, votes[0]) or f.cfg.dominates(votes[0], asg)):
+                ck.holds("C07.5", inst, asg.where, "set to SIMTIME_MAX together with the (single, irrevocable) vote", cfg)
+            else:
+                ck.violated("C07.5", inst, asg.where, "termination_on_gvt sets the maximum termination time to %s" % X.show(asg.children[1]), cfg)
+        else:
+            ck.violated("C07.5", inst, asg.where, "%s lowers or rewrites `%s` (%s): LPs of this thread that terminated at later times than the new value are no longer covered, "
+                        "and a GVT between the two values lets the thread vote although such an LP can still be rolled back" % (f.name, mname.name, X.show(asg)[:70]), cfg)
+    ck.expect("C07.5", n, 2, "writers of the maximum termination time")
 
 
 # --------------------------------------------------------------------------------------------------------------
